@@ -23,7 +23,7 @@ TITLE = "Weights stay real, finite and non-negative; dead walkers stay dead"
 MENU = {"quick": 64, "thorough": 256}
 TIERS = {
     "quick": dict(runs=64 * 10, budget_s=170, recheck=2, shrink_s=60.0, run_timeout_s=900),
-    "thorough": dict(runs=256 * 100, budget_s=2400, recheck=6, shrink_s=180.0, run_timeout_s=1800),
+    "thorough": dict(runs=256 * 100, budget_s=1200, recheck=6, shrink_s=180.0, run_timeout_s=1800),
 }
 RULE = (
     "run i uses compiled-menu entry i mod M (propagator class, trial kind, dt in {1e-4,0.01,0.1,0.5,2}, walkers, kind: step machine / "
@@ -63,7 +63,9 @@ def menu_entry(k):
         m["prop"] = CPMC[(k // 8 + k) % len(CPMC)]
     if m["prop"] in PH:
         wt = "restricted" if m["prop"] == "propagator_restricted" else "unrestricted"
-        m.update(wt=wt, trial=("rhf" if wt == "restricted" else r.choice(["uhf", "noci"])), nelec=([2, 2] if wt == "restricted" else r.choice([[2, 1], [2, 2]])),
+        tr = r.choice(["rhf", "rhf", "uhf"]) if wt == "restricted" else r.choice(["uhf", "noci"])
+        ne = [2, 2] if tr == "rhf" else r.choice([[2, 1], [2, 2], [3, 1]])
+        m.update(wt=wt, trial=tr, nelec=ne,
                  norb=4, nchol=r.choice([2, 3]), n_batch=1)
     else:
         m.update(lattice=r.choice(["chain", "chain", "grid2x2"]), trial=r.choice(["uhf_cpmc", "ghf_cpmc"]), nelec=r.choice([[2, 2], [2, 1], [1, 1]]), chol=r.choice(["hubbard", "hubbard", "zero"]))
@@ -132,6 +134,10 @@ def gen_cfg(seed, index, tier):
 
 def group_of(cfg):
     return f"m{cfg['menu']:03d}"
+
+
+def group_of_index(seed, index, tier):
+    return f"m{index % MENU[tier]:03d}"
 
 
 def build(cfg, harness):
